@@ -35,6 +35,26 @@ impl ToProj for Wrap {
     }
 }
 
+/// a foreign error that has an underlying cause (`Error::source`)
+#[derive(Debug)]
+pub struct Sourced {
+    pub msg: String,
+    pub inner: std::num::ParseIntError,
+}
+impl fmt::Display for Sourced {
+    fn fmt(&self, f: &mut fmt::Formatter<'_>) -> fmt::Result {
+        write!(f, "{}", self.msg)
+    }
+}
+impl std::error::Error for Sourced {
+    fn source(&self) -> Option<&(dyn std::error::Error + 'static)> {
+        Some(&self.inner)
+    }
+}
+impl Foreign for Sourced {
+    const NAME: &'static str = "Sourced";
+}
+
 fn arg<T: ToProj>(x: &T) -> String {
     format!("{:?}", x.to_proj())
 }
@@ -101,6 +121,11 @@ pub fn try_nonempty(s: String) -> Result<Wrap, Empty> {
     } else {
         Err(Empty("empty string".into()))
     }
+}
+
+pub fn try_port(s: &String) -> Result<u16, Sourced> {
+    log_call("try_port", arg(s), None);
+    s.parse::<u16>().map_err(|inner| Sourced { msg: format!("`{s}` is not a valid port number"), inner })
 }
 
 // ---- map ---------------------------------------------------------------------------------------
